@@ -32,10 +32,11 @@
 /* 8-byte cells: with CBMC's per-element tracking (--max-field-sensitivity-array-size) an access at a constant offset costs
    nothing; byte arrays made the register-pressure case (16 doubles through memory) a 12 M clause formula */
 #define C01_BUF_WORDS (C01_BUF_BYTES / 8)
-static uint64_t c01_buf[C01_NBUF][C01_BUF_WORDS] __attribute__ ((aligned (16)));
-static uint64_t c01_buf_init[C01_NBUF][C01_BUF_WORDS];   /* initial contents */
-static uint64_t c01_buf_interp[C01_NBUF][C01_BUF_WORDS]; /* after the interpreter run */
-#define C01_BUF_ADDR(k, off) ((uint64_t) (uintptr_t) ((uint8_t *) c01_buf[k] + (off)))
+/* one flat array (buffer k = words [k*C01_BUF_WORDS, (k+1)*C01_BUF_WORDS)): CBMC tracks elements of one-dimensional arrays only */
+static uint64_t c01_buf[C01_NBUF * C01_BUF_WORDS] __attribute__ ((aligned (16)));
+static uint64_t c01_buf_init[C01_NBUF * C01_BUF_WORDS];   /* initial contents */
+static uint64_t c01_buf_interp[C01_NBUF * C01_BUF_WORDS]; /* after the interpreter run */
+#define C01_BUF_ADDR(k, off) ((uint64_t) (uintptr_t) ((uint8_t *) &c01_buf[(k) * C01_BUF_WORDS] + (off)))
 
 static uint64_t c01_ext_vals[H_MAX_EXT_CALLS][2];
 static uint64_t c01_ext_result (int call_no, int res_no) { return c01_ext_vals[call_no][res_no & 1]; }
@@ -55,7 +56,7 @@ static void c01_begin (void) {
   c01_log_i.n = c01_log_g.n = 0;
 }
 static void c01_buf_fill (int k) { /* arbitrary initial contents */
-  for (int i = 0; i < C01_BUF_WORDS; i++) { uint64_t w = nd (); c01_buf[k][i] = w; c01_buf_init[k][i] = w; }
+  for (int i = k * C01_BUF_WORDS; i < (k + 1) * C01_BUF_WORDS; i++) { uint64_t w = nd (); c01_buf[i] = w; c01_buf_init[i] = w; }
 }
 static void c01_interp (int fid, MIR_val_t *args, MIR_val_t *res) {
   c01_secs_save ();
@@ -64,8 +65,7 @@ static void c01_interp (int fid, MIR_val_t *args, MIR_val_t *res) {
   h_run (fid, args, res);
   h_cur_log = NULL;
   /* keep what the interpreter left in memory, give the lifted code the same initial memory */
-  for (int k = 0; k < C01_NBUF; k++)
-    for (int i = 0; i < C01_BUF_WORDS; i++) { c01_buf_interp[k][i] = c01_buf[k][i]; c01_buf[k][i] = c01_buf_init[k][i]; }
+  for (int i = 0; i < C01_NBUF * C01_BUF_WORDS; i++) { c01_buf_interp[i] = c01_buf[i]; c01_buf[i] = c01_buf_init[i]; }
   c01_secs_to_interp_and_restore ();
 }
 
@@ -229,8 +229,7 @@ static long double c01_nd_ld (void) { /* arbitrary long double: every binary128 
 
 static int c01_bufs_equal (void) {
   uint64_t d = 0;
-  for (int k = 0; k < C01_NBUF; k++)
-    for (int i = 0; i < C01_BUF_WORDS; i++) d |= c01_buf_interp[k][i] ^ c01_buf[k][i];
+  for (int i = 0; i < C01_NBUF * C01_BUF_WORDS; i++) d |= c01_buf_interp[i] ^ c01_buf[i];
   return d == 0;
 }
 static int c01_logs_equal (void) {
